@@ -50,10 +50,24 @@ def cases(tier, seed):
         cs.append(dict(kind='time', procs=procs, nlev=nlev, predict=[None, 'fine_only', 'pfasst_burnin'][int(rng.integers(0, 3))] if nlev > 1 else None, jac=bool(rng.random() < 0.5) if mode != 'adaptive' else False,
                        mode=mode, nsteps=int(rng.integers(1, 3 * procs + 1)), maxiter=int(rng.integers(1, 5)), restol=float(rng.choice([-1.0, 1e-8, 1e-3, 0.05, 0.2, 1.0])), prob=['heat', 'dahlquist'][i % 2] if nlev == 1 else 'heat',
                        a2d=bool(rng.random() < 0.2), rffs=bool(rng.random() < 0.3), mr=int(rng.integers(1, 4)), nsched=nsched, seed=int(rng.integers(0, 2**31)), _cost=procs * nlev * nsched))
+    # intervals that end exactly on a step boundary, step sizes without a finite binary expansion, last block one step short
+    for i in range(10 if tier == 'quick' else 200):
+        procs = int(rng.integers(2, 5))
+        dt_ = float(rng.choice([0.1, 0.3, 0.05, 0.7, 0.025]))
+        nb = int(rng.integers(1, 5))
+        nsteps = nb * procs + (procs - 1 if i % 2 == 0 else int(rng.integers(0, procs)))
+        cs.append(dict(kind='time', procs=procs, nlev=int(rng.choice([1, 1, 2])), predict=None, jac=bool(rng.random() < 0.5), mode='fixed', nsteps=max(1, nsteps), maxiter=int(rng.integers(1, 4)), restol=-1.0,
+                       prob=['heat', 'dahlquist'][i % 2], a2d=False, rffs=False, mr=1, dt=dt_, exact_end=True, nsched=max(3, nsched // 3), seed=int(rng.integers(0, 2**31)), _cost=procs * nsched))
+        if cs[-1]['nlev'] > 1:
+            cs[-1]['prob'] = 'heat'
     for i in range(10 if tier == 'quick' else 260):
         M = int(rng.integers(2, 5))
         cs.append(dict(kind='node', M=M, sweeper=['impl', 'imex'][i % 2], QI=['MIN-SR-S', 'IEpar', 'MIN-SR-NS', 'Qpar', 'MIN'][int(rng.integers(0, 5))], nlev=int(rng.choice([1, 1, 2])), qt=['RADAU-RIGHT', 'LOBATTO', 'GAUSS'][int(rng.integers(0, 3))],
                        rtype=['full_abs', 'last_abs', 'full_rel', 'last_rel'][int(rng.integers(0, 4))], guess=['spread', 'copy', 'zero'][int(rng.integers(0, 3))], nsteps=int(rng.integers(1, 4)), nsched=nsched, seed=int(rng.integers(0, 2**31)), _cost=M * nsched))
+        if i % 3 == 0:
+            cs[-1]['adapt'] = dict(e_tol=float(10 ** rng.uniform(-6, -3)), rel=bool((i // 3) % 2))
+            cs[-1]['nsteps'] = int(rng.integers(3, 8))
+            cs[-1]['nsched'] = max(3, nsched // 3)
     for i in range(6 if tier == 'quick' else 160):
         cs.append(dict(kind='timexnode', T=int(rng.integers(2, 4)), M=int(rng.integers(2, 4)), sweeper=['impl', 'imex'][i % 2], QI=['MIN-SR-S', 'IEpar'][i % 2], nsteps=int(rng.integers(2, 7)), nsched=max(4, nsched // 2), seed=int(rng.integers(0, 2**31)), _cost=8 * nsched))
     return cs
@@ -87,7 +101,7 @@ def time_description(case):
     from pySDC.implementations.transfer_classes.TransferMesh import mesh_to_mesh
 
     nlev = case['nlev']
-    dt = 0.05
+    dt = case.get('dt', 0.05)
     if case['prob'] == 'heat':
         pc, pp = heatNd_unforced, dict(nvars=[15, 7, 3][:nlev] if nlev > 1 else 15, nu=0.1, freq=2, bc='dirichlet-zero')
     else:
@@ -160,7 +174,7 @@ def run_time(case, r):
     from pySDC.implementations.hooks.log_step_size import LogStepSize
 
     procs, nlev = case['procs'], case['nlev']
-    r.key = f"time/{procs}/{nlev}/{case['predict']}/{case['jac']}/{case['mode']}/{case['prob']}/{case['maxiter']}/{case['restol']}/{case['nsteps']}/{case['a2d']}/{case['rffs']}"
+    r.key = f"time/{procs}/{nlev}/{case['predict']}/{case['jac']}/{case['mode']}/{case['prob']}/{case['maxiter']}/{case['restol']}/{case['nsteps']}/{case['a2d']}/{case['rffs']}/{case.get('dt', 0.05)}/{case.get('exact_end', False)}"
     tag = r.key
 
     def cparams():
@@ -172,6 +186,10 @@ def run_time(case, r):
     d, dt = time_description(case)
     add_control(case, d, dt, useMPI=False)
     Tend = (case['nsteps'] - 0.5) * dt
+    if case.get('exact_end'):
+        # the interval ends exactly on a step boundary: whether the accumulated start time of the next step rounds below or above
+        # Tend decides which ranks take part in the last block -- the parallel run must take the serial run's decision
+        Tend = case['nsteps'] * dt
     from vf.checks.C09 import split_blocks
     from vf.mon.tracehook import find_hook, make_trace_hook
 
@@ -294,6 +312,13 @@ def node_description(case, mpi, comm=None):
             from pySDC.implementations.transfer_classes.BaseTransferMPI import base_transfer_MPI
 
             d['base_transfer_class'] = base_transfer_MPI
+    if case.get('adapt'):
+        # error-based step-size control on top of the node-parallel sweeper: the estimate is assembled across the node ranks
+        from pySDC.implementations.convergence_controller_classes.adaptivity import Adaptivity
+
+        d['level_params'] = dict(dt=0.05, restol=-1, residual_type=case.get('rtype', 'full_abs'))
+        d['step_params'] = dict(maxiter=3)
+        d['convergence_controllers'] = {Adaptivity: dict(e_tol=case['adapt']['e_tol'], rel_error=case['adapt']['rel'])}
     return d
 
 
@@ -305,11 +330,15 @@ def run_node(case, r):
     M = case['M']
     r.key = f"node/{M}/{case['sweeper']}/{case['QI']}/{case['nlev']}/{case['qt']}/{case['rtype']}/{case['guess']}/{case['nsteps']}"
     tag = r.key
+    if case.get('adapt'):
+        case = dict(case, nlev=1, qt='RADAU-RIGHT', guess='spread')
+        r.key += f"/adapt{case['adapt']['rel']}"
+        tag = r.key
     if case['qt'] != 'RADAU-RIGHT' and (case['nlev'] > 1):
         case = dict(case, nlev=1)
     if case['qt'] == 'GAUSS' and case['sweeper'] == 'imex':
         case = dict(case, qt='RADAU-RIGHT')
-    cp = dict(logger_level=50, dump_setup=False)
+    cp = dict(logger_level=50, dump_setup=False, mssdc_jac=False)
     Tend = (case['nsteps'] - 0.5) * 0.05
     try:
         ser = controller_nonMPI(1, dict(cp), node_description(case, False))
@@ -345,6 +374,11 @@ def run_node(case, r):
             e = float(np.max(np.abs(rr[0] - us)))
             r.check(e <= 1e-12 * max(1.0, float(np.max(np.abs(us)))), 'same-solution', f'{stag}: node rank {rank} returns a value {e:.3e} away from the serial sweeper result')
             r.check([v for _, v in rr[1]['niter']] == [v for _, v in ref['niter']], 'same-niter', f'{stag}: node rank {rank} iteration counts {[v for _, v in rr[1]["niter"]]} vs serial {[v for _, v in ref["niter"]]}')
+            if case.get('adapt'):
+                a_, b_ = ref.get('dt', []), rr[1].get('dt', [])
+                r.check(len(a_) == len(b_) and all(abs(x[1] - y[1]) <= 1e-12 * abs(x[1]) for x, y in zip(a_, b_)), 'same-dt', f'{stag}: node rank {rank} step sizes {b_[:5]} vs serial {a_[:5]}')
+                r.check([v for _, v in rr[1].get('restart', [])] == [v for _, v in ref.get('restart', [])], 'same-restart', f'{stag}: node rank {rank} restarts differ from the serial run')
+                r.count('node_adaptive_runs_compared')
             okr = len(rr[1]['residual_post_step']) == len(ref['residual_post_step']) and all(abs(x[1] - y[1]) <= 1e-11 * max(1.0, abs(x[1])) + 1e-15 for x, y in zip(ref['residual_post_step'], rr[1]['residual_post_step']))
             r.check(okr, 'same-residual', f'{stag}: node rank {rank} residuals {rr[1]["residual_post_step"][:3]} vs serial {ref["residual_post_step"][:3]}')
             r.count('solutions_compared')
